@@ -1001,6 +1001,49 @@ def handleMore (args : List String) (impl : String) : Option Verdict :=
       let (_, out) := (List.range n).foldl step (0, [])
       some (cmpModel (String.ofList out) impl)
     | _, _, _ => some .unknown
+  | ["wclosed"] =>
+    -- the remote closed behind its Pings: the response's write fails (not a timeout): the writer leaves without a retry,
+    -- the reader ends at end of stream - both threads gone without `stop`; the channel is disconnected afterwards
+    some (cmpModel "ended:1;send:Send" impl)
+  | ["wstall", n, len, j, k, total] =>
+    -- (thorough only) the writer's 60 s write timeout: message j re-sent from byte 0 after k of its bytes
+    match nat? n, nat? len, nat? j, nat? k, nat? total with
+    | some n, some len, some j, some k, some total =>
+      let msgs : List OutMsg := List.replicate n { t := GV.Gen.Msg.T_Block, body := List.replicate len 0, att := none }
+      let oc : List (Option Nat) := if k = 0 ∧ j = n then [] else List.replicate j none ++ [some k]
+      let written := (writerLoop netAutomatedTesting (n + 2) msgs oc).foldl (fun a b => a + b.length) 0
+      let m := if k = 0 ∧ j = n then "in-order" else "resent-from-byte-0"
+      if written = total then some (cmpModel m impl) else some (.diff s!"{m} with {written} bytes on the wire")
+    | _, _, _, _, _ => some .unknown
+  | ["clean", maxIn, maxOut, td, spec] =>
+    -- `Peers::clean_peers` over real peers: the removals with a definite reason must be exactly there; of the inbound
+    -- candidates (not preferred) the code takes `excess` in map order - any choice of that size is accepted
+    match nat? maxIn, nat? maxOut, nat? td with
+    | some maxIn, some maxOut, some td =>
+      let items := if spec = "-" then [] else spec.splitOn ","
+      let parsed : Option (List CP) := items.zipIdx.mapM fun (it, i) =>
+        match it.splitOn ":" with
+        | [hd, d] => d.toNat?.map fun d =>
+          ({ id := i, outbound := hd.startsWith "o", banned := hd.contains 'b', abusive := hd.contains 'a',
+             stuck := hd.contains 's', diff := d, preferred := hd.contains 'p' } : CP)
+        | _ => none
+      match parsed with
+      | none => some .unknown
+      | some ps =>
+        let det := cleanDefinite maxOut (some td) ps
+        let (m, cand) := excessInbound maxIn ps
+        let candIds := cand.map (·.id)
+        let bits := if impl = "-" then [] else impl.toList
+        if bits.length ≠ ps.length then some (.diff "one bit per peer") else
+        let removed := (bits.zipIdx.filter fun (c, _) => c = '1').map (·.2)
+        let extras := removed.filter fun i => !det.contains i
+        let okDet := det.all fun i => removed.contains i
+        let okExtra := extras.all fun i => candIds.contains i
+        let overlap := (candIds.filter fun i => det.contains i).length
+        let okCount := decide (extras.length ≤ m) && decide (m ≤ extras.length + overlap)
+        if okDet && okExtra && okCount then some .ok
+        else some (.diff s!"definite removals {det}, {m} of the inbound candidates {candIds}")
+    | _, _, _ => some .unknown
   | ["stoprace", _k] => some (cmpSpec "finished" impl)
   | ["stopmid"] =>
     -- the `stopped` flag is read at the top of the reader loop only: the frame in flight is completed and handed
